@@ -3,6 +3,7 @@ import PytmeModel.Extracted.C02
 import PytmeModel.Props.C01
 import PytmeModel.Props.C04
 import PytmeModel.Props.C14
+import PytmeModel.Proofs.C02Enum
 import Mathlib.Tactic.Ring
 import Mathlib.Tactic.Linarith
 
@@ -46,6 +47,32 @@ theorem splitRotations_concat {α} (rots : List α) (nJobs : Nat) (h : 1 ≤ nJo
 
 theorem splitRotations_length {α} (rots : List α) (nJobs : Nat) : (splitRotations rots nJobs).length = nJobs := by
   simp [splitRotations]
+
+/-- **Chunk sizes** (`_split_rotations_on_jobs`): the first `n_jobs - 1` chunks hold `len // n_jobs` rotations each, the last
+one the remaining `len - (n_jobs - 1) (len // n_jobs)` (at least as many, at most `n_jobs - 1` more) -/
+theorem splitRotations_chunk_lengths {α} (rots : List α) (n : Nat) (hn : 1 ≤ n) :
+    (splitRotations rots n).map List.length
+      = List.replicate (n - 1) (rots.length / n) ++ [rots.length - (n - 1) * (rots.length / n)] := by
+  obtain ⟨J, rfl⟩ : ∃ J, n = J + 1 := ⟨n - 1, by omega⟩
+  unfold splitRotations
+  simp only [Nat.add_sub_cancel]
+  rw [List.range_succ, List.map_append, List.map_append]
+  congr 1
+  · rw [List.eq_replicate_iff]
+    refine ⟨by simp, ?_⟩
+    intro x hx
+    simp only [List.map_map, List.mem_map, List.mem_range] at hx
+    obtain ⟨k, hk, rfl⟩ := hx
+    have hkJ : k ≠ J := by omega
+    simp only [Function.comp, hkJ, if_false, List.length_take, List.length_drop]
+    have h1 : rots.length / (J + 1) * (J + 1) ≤ rots.length := Nat.div_mul_le_self _ _
+    have h2 : (k + 1) * (rots.length / (J + 1)) ≤ (J + 1) * (rots.length / (J + 1)) :=
+      Nat.mul_le_mul_right _ (by omega)
+    rw [Nat.succ_mul] at h2
+    rw [Nat.mul_comm] at h1
+    omega
+  · simp [List.length_drop]
+example : (splitRotations [1, 2, 3, 4, 5, 6, 7] 3).map List.length = [2, 2, 3] ∧ (splitRotations [1, 2] 5).map List.length = [0, 0, 0, 0, 2] := by decide
 
 /-! ## the per-rotation loop bodies do not depend on earlier rotations -/
 
@@ -198,7 +225,9 @@ theorem allVals_chunks {K : Type} (off shape : List Nat) (chunks : List (List (A
     | some q => simp [valsAt]
 
 open Pm.C04 in
-/-- **`scan(n_jobs = k)` = `scan(n_jobs = 1)`** (any threshold, any number of jobs, also more jobs than rotations):
+/-- **`scan(n_jobs = k)` = `scan(n_jobs = 1)`** (any threshold, any number of jobs, also more jobs than rotations) — the
+single-tile case; the statement for the whole of `scan_subsets` (every tiling, outer and inner job counts together) is
+`scan_subsets_schedule_free` below, of which this is the one-job corollary:
 the rotation list is cut into `k` chunks (`_split_rotations_on_jobs`), every job aggregates its chunk in an analyzer of
 its own, `merge` combines the analyzers; at every absolute voxel the merged map holds the value the single job holds. -/
 theorem chunked_jobs_eq_single_job {K : Type} [DecidableEq K] {thr : Int} (off shape : List Nat)
@@ -415,5 +444,881 @@ theorem tile_content_hypothesis {α} (vol T : List Int → α) (axes : List AxSp
 example : SamePos [3, 2] [4, 0] [1, 2] [0, 0] [5, 2] := by simp [SamePos]
 example : (AxSpec.mk 10 0 4 4).Ok := by simp [AxSpec.Ok, AxSpec.left, AxSpec.ta, Pm.C14.tileAxis]
 example : defBeforeUse corrInputs corrInputs corrLoop = true := by decide
+
+/-! ## the orchestration: job enumeration of `scan_subsets` / `scan` (model: `enumJobs`, tied to the real calls by the
+correspondence stream "scan_subsets job enumeration") -/
+
+section enumeration
+variable {R : Type}
+
+/-- the tiling the enumeration uses is C14's `split_shape`, the padded tile C14's `subset_array` bookkeeping -/
+theorem enum_tiling_is_C14 (shape splits : List Nat) (N p : Nat) (sl : Nat × Nat) :
+    splitShape shape splits = Pm.C14.splitShape shape splits ∧
+    paddedExtent N sl p = (Pm.C14.tileAxis N sl.1 sl.2 p).extent :=
+  ⟨splitShape_eq_C14 shape splits, rfl⟩
+
+/-- **No tile skipped, none issued twice, in `itertools.product` order**: the (target slice, template slice) pairs of the
+jobs are exactly the pairs of the two splits, once each, for every schedule. -/
+theorem enumJobs_pairs_exact (tgt tmpl tS mS : List Nat) (outer inner : Nat) (rots : List R) (pe : Bool) :
+    (enumJobs tgt tmpl tS mS outer inner rots pe).map (fun J => (J.targetSlice, J.templateSlice))
+      = splitPairs tgt tmpl tS mS := by
+  unfold enumJobs
+  rw [List.map_map]
+  have := zipIdx_map_indep (splitPairs tgt tmpl tS mS)
+    ((fun J : Job R => (J.targetSlice, J.templateSlice)) ∘ fun p => mkJob tgt tmpl outer inner rots pe p.1 p.2) id
+    (fun tm i => rfl) 0
+  simpa using this
+
+/-- number of jobs = (number of target tiles) × (number of template parts) = product of the part counts -/
+theorem enumJobs_count (tgt tmpl tS mS : List Nat) (outer inner : Nat) (rots : List R) (pe : Bool)
+    (h1 : tgt.length = tS.length) (h2 : tmpl.length = mS.length) :
+    (enumJobs tgt tmpl tS mS outer inner rots pe).length = prodL (tS.map (max · 1)) * prodL (mS.map (max · 1)) := by
+  rw [enumJobs_length, splitPairs_length, splitShape_eq_C14, splitShape_eq_C14,
+    Pm.C14.splitShape_length _ _ h1, Pm.C14.splitShape_length _ _ h2]
+
+/-- jobs are numbered 0, 1, 2, … in creation order; the device number is that index modulo the outer job count;
+every job gets `inner` rotation chunks whose concatenation is the rotation list; the analyzer's offset is the start of
+the *target* slice whatever the template slice is -/
+theorem enumJobs_bookkeeping (tgt tmpl tS mS : List Nat) (outer inner : Nat) (rots : List R) (pe : Bool) (hi : 1 ≤ inner) :
+    (enumJobs tgt tmpl tS mS outer inner rots pe).map Job.index = List.range (splitPairs tgt tmpl tS mS).length ∧
+    ∀ J ∈ enumJobs tgt tmpl tS mS outer inner rots pe,
+      J.gpuIndex = J.index % outer ∧ J.chunks.length = inner ∧ J.chunks.flatten = rots ∧
+      J.offset = J.targetSlice.map Prod.fst ∧ J.chunks = splitRotations rots inner := by
+  refine ⟨enumJobs_index _ _ _ _ _ _ _ _, ?_⟩
+  intro J hJ
+  obtain ⟨tm, _, i, rfl⟩ := mem_enumJobs _ _ _ _ _ _ _ _ _ hJ
+  exact ⟨rfl, by simp [mkJob, splitRotations], splitRotations_concat rots inner hi, rfl, rfl⟩
+
+/-- the trivial template split: one part, the whole template -/
+theorem splitShape_whole (tmpl mS : List Nat) (h : tmpl.length = mS.length) (hk : ∀ k ∈ mS, k ≤ 1) :
+    splitShape tmpl mS = [tmpl.map (fun m => (0, m))] := by
+  unfold splitShape
+  induction tmpl generalizing mS with
+  | nil => cases mS with
+    | nil => rfl
+    | cons => simp at h
+  | cons m ms ih =>
+    cases mS with
+    | nil => simp at h
+    | cons k ks =>
+      have hk1 : max k 1 = 1 := by have := hk k List.mem_cons_self; omega
+      simp only [List.zipWith_cons_cons, productL, List.map_cons]
+      rw [ih ks (by simpa using h) (fun x hx => hk x (List.mem_cons_of_mem _ hx))]
+      simp [splitAxis, hk1, tile, tileStart, tileLen, cdiv]
+
+/-- **(a) Every (voxel of the unpadded target, rotation) pair is evaluated by some job, and reported at its own
+position**: for every target shape, split vector, schedule (also more inner jobs than rotations) and padding flag there
+is a job one of whose chunks holds the rotation and whose box `[offset, offset + outShape)` contains the voxel; the
+local cell `q` that `merge` reads for it satisfies `offset + q = p`.  (Whole template.) -/
+theorem every_voxel_rotation_evaluated (tgt tmpl tS mS : List Nat) (outer inner : Nat) (rots : List R) (pe : Bool)
+    (hl : tgt.length = tS.length) (hr : tgt.length = tmpl.length) (hpos : ∀ n ∈ tgt, 0 < n) (hi : 1 ≤ inner)
+    (hm : splitShape tmpl mS = [tmpl.map (fun m => (0, m))])
+    (p : List Nat) (hp : inShape tgt p = true) (r : R) (hrot : r ∈ rots) :
+    ∃ J ∈ enumJobs tgt tmpl tS mS outer inner rots pe, (∃ c ∈ J.chunks, r ∈ c) ∧
+      ∃ q, Pm.C04.localIdx J.offset J.outShape p = some q ∧ List.zipWith (· + ·) J.offset q = p := by
+  obtain ⟨t, ht, hcov⟩ := Pm.C14.splitShape_covers tgt tS p hl hp
+  rw [← splitShape_eq_C14] at ht
+  have hpair : (t, tmpl.map (fun m => (0, m))) ∈ splitPairs tgt tmpl tS mS :=
+    (mem_splitPairs _ _ _ _ _).mpr ⟨ht, by rw [hm]; exact List.mem_singleton.mpr rfl⟩
+  obtain ⟨i, hJ⟩ := enumJobs_of_mem tgt tmpl tS mS outer inner rots pe _ hpair
+  refine ⟨_, hJ, ?_, ?_⟩
+  · have : r ∈ (splitRotations rots inner).flatten := by rw [splitRotations_concat rots inner hi]; exact hrot
+    obtain ⟨c, hc, hrc⟩ := List.mem_flatten.mp this
+    exact ⟨c, hc, hrc⟩
+  · obtain ⟨hoff, hshape⟩ := mkJob_box tgt tmpl tS outer inner rots pe hl hr hpos t ht i
+    rw [hoff, hshape]
+    obtain ⟨q, hq⟩ := localIdx_of_in_slice t p hcov
+    exact ⟨q, hq, localIdx_add hq⟩
+
+/-- **(a) … and nothing is reported anywhere else**: whatever job holds a cell for the absolute voxel `p`, that cell
+stands for `p` itself (`offset + q = p`) and `p` lies in the job's own target slice — two overlapping tiles report a
+shared voxel at the same global position, never at two different ones.  (Whole template.) -/
+theorem job_reports_own_slice (tgt tmpl tS mS : List Nat) (outer inner : Nat) (rots : List R) (pe : Bool)
+    (hl : tgt.length = tS.length) (hr : tgt.length = tmpl.length) (hpos : ∀ n ∈ tgt, 0 < n)
+    (hm : splitShape tmpl mS = [tmpl.map (fun m => (0, m))])
+    (J : Job R) (hJ : J ∈ enumJobs tgt tmpl tS mS outer inner rots pe) (p q : List Nat)
+    (hq : Pm.C04.localIdx J.offset J.outShape p = some q) :
+    List.zipWith (· + ·) J.offset q = p ∧
+    List.Forall₂ (fun (s : Nat × Nat) (i : Nat) => s.1 ≤ i ∧ i < s.2) J.targetSlice p ∧
+    J.outShape = J.targetSlice.map (fun s => s.2 - s.1) := by
+  obtain ⟨tm, htm, i, rfl⟩ := mem_enumJobs _ _ _ _ _ _ _ _ _ hJ
+  obtain ⟨ht, hmm⟩ := (mem_splitPairs _ _ _ _ tm).mp htm
+  rw [hm] at hmm
+  obtain ⟨t, m⟩ := tm
+  simp only [List.mem_singleton] at hmm
+  subst hmm
+  obtain ⟨hoff, hshape⟩ := mkJob_box tgt tmpl tS outer inner rots pe hl hr hpos t ht i
+  simp only at ht
+  refine ⟨localIdx_add hq, ?_, hshape⟩
+  rw [hoff, hshape] at hq
+  have hb := splitShape_in_bounds tgt tS hl hpos t ht
+  refine in_slice_of_localIdx t p q ?_ hq
+  intro s hs
+  obtain ⟨N, _, h⟩ := forall₂_mem_left hb s hs
+  omega
+
+end enumeration
+
+/-! ### (b) the schedule only changes the chunking -/
+
+section schedule
+variable {R : Type}
+
+/-- **(b) The enumeration does not depend on the (outer, inner) job counts except for chunking**: job by job, in the same
+order, the target slice, template slice, padding, offset, crop mode, tile shape, cropped shape and the concatenation of
+the rotation chunks are the same for every two schedules (`inner ≥ 1`; also more inner jobs than rotations). -/
+theorem enumJobs_schedule_free (tgt tmpl tS mS : List Nat) (o i o' i' : Nat) (rots : List R) (pe : Bool)
+    (hi : 1 ≤ i) (hi' : 1 ≤ i') :
+    (enumJobs tgt tmpl tS mS o i rots pe).map Job.core = (enumJobs tgt tmpl tS mS o' i' rots pe).map Job.core := by
+  rw [enumJobs_core _ _ _ _ _ _ _ _ hi, enumJobs_core _ _ _ _ _ _ _ _ hi']
+
+/-- the (target tile, template part, rotation) triples a schedule evaluates, in order -/
+def evaluated (jobs : List (Job R)) : List (List (Nat × Nat) × List (Nat × Nat) × R) :=
+  jobs.flatMap (fun J => J.chunks.flatten.map (fun r => (J.targetSlice, J.templateSlice, r)))
+
+/-- **(b) The list (a fortiori the multiset) of evaluated (tile, template part, rotation) triples is the same for every
+schedule**: it is every pair of the two splits combined with every rotation, each exactly once. -/
+theorem evaluated_schedule_free (tgt tmpl tS mS : List Nat) (o i : Nat) (rots : List R) (pe : Bool) (hi : 1 ≤ i) :
+    evaluated (enumJobs tgt tmpl tS mS o i rots pe)
+      = (splitPairs tgt tmpl tS mS).flatMap (fun tm => rots.map (fun r => (tm.1, tm.2, r))) := by
+  have h : ∀ jobs : List (Job R), evaluated jobs
+      = (jobs.map Job.core).flatMap (fun c => c.rots.map (fun r => (c.targetSlice, c.templateSlice, r))) := by
+    intro jobs; simp [evaluated, List.flatMap_map, Job.core]
+  rw [h, enumJobs_core _ _ _ _ _ _ _ _ hi, List.flatMap_map]
+  apply List.flatMap_congr
+  intro tm _
+  simp [coreOf, Job.core, mkJob, splitRotations_concat rots 1 (le_refl 1)]
+
+variable {K : Type} [DecidableEq K]
+
+open Pm.C04 in
+/-- **`scan_subsets_schedule_free` (end to end)**: run `scan_subsets` under two schedules `(o, i)` and `(o', i')` on the
+same target, template, split dictionaries, rotation list and padding flag: jobs as `enumJobs` lists them, every rotation
+chunk aggregated by an analyzer of its own (C04 `run`), `scan` merging its analyzers, `scan_subsets` merging the jobs
+(C04 `merge`, as called: `None` entries, single-entry shortcut).  Then the two merged results hold the same value at
+every absolute voxel, for every threshold — also when there are more inner jobs than rotations. -/
+theorem scan_subsets_schedule_free {thr : Int} (score : ScoreFn R K) (tgt tmpl tS mS : List Nat) (o i o' i' : Nat)
+    (rots : List R) (pe : Bool) (hi : 1 ≤ i) (hi' : 1 ≤ i')
+    (h1 : tgt.length = tS.length) (h2 : tmpl.length = mS.length) (h3 : tgt.length = tmpl.length)
+    {M M' : Store K}
+    (hM : scanSubsetsRun thr score (enumJobs tgt tmpl tS mS o i rots pe) = some M)
+    (hM' : scanSubsetsRun thr score (enumJobs tgt tmpl tS mS o' i' rots pe) = some M') (p : List Nat) :
+    M.valOr thr p = M'.valOr thr p := by
+  rw [scanSubsetsRun_value score _ (enumJobs_dims tgt tmpl tS mS o i rots pe h1 h2 h3) hM p,
+      scanSubsetsRun_value score _ (enumJobs_dims tgt tmpl tS mS o' i' rots pe h1 h2 h3) hM' p,
+      enumJobs_schedule_free tgt tmpl tS mS o i o' i' rots pe hi hi']
+
+open Pm.C04 in
+/-- **(a)+(b) composed with C14's tiling and C04's merge: tiled = unsplit.**  If the score array a job computes for a
+rotation holds, at its local cell for the absolute voxel `p`, the value `g r p` of one global per-rotation map (that is
+`tiled_eq_unsplit_padded` with edge padding; without it the hypothesis holds away from tile borders only), then what
+`scan_subsets` returns is, at every voxel of the target, the maximum over the rotation list of that map (or the
+threshold) — for every split vector and schedule. -/
+theorem scan_subsets_eq_unsplit {thr : Int} (score : ScoreFn R K) (g : R → List Nat → Int)
+    (tgt tmpl tS mS : List Nat) (o i : Nat) (rots : List R) (pe : Bool) (hi : 1 ≤ i)
+    (h1 : tgt.length = tS.length) (h2 : tmpl.length = mS.length) (h3 : tgt.length = tmpl.length)
+    (hpos : ∀ n ∈ tgt, 0 < n) (hm : splitShape tmpl mS = [tmpl.map (fun m => (0, m))])
+    (hscore : ∀ t ∈ splitShape tgt tS, ∀ r ∈ rots, ∀ p q,
+        localIdx (t.map Prod.fst) (t.map (fun s => s.2 - s.1)) p = some q →
+        (score t (tmpl.map (fun m => (0, m))) r).1.getD q 0 = g r p)
+    {M : Store K} (hM : scanSubsetsRun thr score (enumJobs tgt tmpl tS mS o i rots pe) = some M)
+    (p : List Nat) (hp : inShape tgt p = true) :
+    M.valOr thr p = specMax thr (rots.map (fun r => g r p)) := by
+  rw [scanSubsetsRun_value score _ (enumJobs_dims tgt tmpl tS mS o i rots pe h1 h2 h3) hM p,
+      enumJobs_core _ _ _ _ _ _ _ _ hi]
+  apply specMax_congr_mem
+  intro x
+  have hcore : ∀ t ∈ splitShape tgt tS,
+      coreVals score p (coreOf tgt tmpl rots pe (t, tmpl.map (fun m => (0, m))))
+        = match localIdx (t.map Prod.fst) (t.map (fun s => s.2 - s.1)) p with
+          | some q => rots.map (fun r => (score t (tmpl.map (fun m => (0, m))) r).1.getD q 0)
+          | none => [] := by
+    intro t ht
+    obtain ⟨hoff, hshape⟩ := mkJob_box tgt tmpl tS 1 1 rots pe h1 h3 hpos t ht 0
+    simp only [coreVals, coreOf, Job.core, tileVals]
+    rw [hoff, hshape]
+    have e : (mkJob tgt tmpl 1 1 rots pe (t, tmpl.map (fun m => (0, m))) 0).chunks.flatten = rots :=
+      splitRotations_concat rots 1 (le_refl 1)
+    rw [e]
+    cases localIdx (t.map Prod.fst) (t.map (fun s => s.2 - s.1)) p with
+    | none => rfl
+    | some q => simp [valsAt, mkJob, List.map_map, Function.comp_def]
+  constructor
+  · intro hx
+    obtain ⟨c, hc, hxc⟩ := List.mem_flatMap.mp hx
+    obtain ⟨tm, htm, rfl⟩ := List.mem_map.mp hc
+    obtain ⟨ht, hmm⟩ := (mem_splitPairs _ _ _ _ tm).mp htm
+    obtain ⟨t, m⟩ := tm
+    rw [hm] at hmm
+    simp only [List.mem_singleton] at hmm ht
+    subst hmm
+    rw [hcore t ht] at hxc
+    cases hq : localIdx (t.map Prod.fst) (t.map (fun s => s.2 - s.1)) p with
+    | none => rw [hq] at hxc; cases hxc
+    | some q =>
+      rw [hq] at hxc
+      obtain ⟨r, hr, rfl⟩ := List.mem_map.mp hxc
+      exact List.mem_map.mpr ⟨r, hr, (hscore t ht r hr p q hq).symm⟩
+  · intro hx
+    obtain ⟨r, hr, rfl⟩ := List.mem_map.mp hx
+    obtain ⟨t, ht, hcov⟩ := Pm.C14.splitShape_covers tgt tS p h1 hp
+    rw [← splitShape_eq_C14] at ht
+    obtain ⟨q, hq⟩ := localIdx_of_in_slice t p hcov
+    refine List.mem_flatMap.mpr ⟨_, List.mem_map.mpr ⟨(t, tmpl.map (fun m => (0, m))),
+      (mem_splitPairs _ _ _ _ _).mpr ⟨ht, by rw [hm]; exact List.mem_singleton.mpr rfl⟩, rfl⟩, ?_⟩
+    rw [hcore t ht, hq]
+    exact List.mem_map.mpr ⟨r, hr, hscore t ht r hr p q hq⟩
+
+end schedule
+
+/-! ### a rotation that attains the value; the link to the padded-tile theorem; template splits as coded -/
+
+section more
+variable {R K : Type} [DecidableEq K]
+
+open Pm.C04 in
+/-- **Per voxel, a rotation that attains it** (any split vector, any schedule): at every cell of the merged result either
+the marker `-1` stands and the score is the threshold, or the stored identifier maps through the merged table to a
+rotation key that some job's analyzer was handed together with an array holding exactly the stored value at that voxel. -/
+theorem scan_subsets_rotation_attains {thr : Int} (score : ScoreFn R K) (tgt tmpl tS mS : List Nat) (o i : Nat)
+    (rots : List R) (pe : Bool)
+    (h1 : tgt.length = tS.length) (h2 : tmpl.length = mS.length) (h3 : tgt.length = tmpl.length)
+    {M : Store K} (hM : scanSubsetsRun thr score (enumJobs tgt tmpl tS mS o i rots pe) = some M)
+    (p q : List Nat) (hq : localIdx M.offset M.scores.shape p = some q) :
+    (M.rots.getD q 0 = -1 ∧ M.scores.getD q 0 = thr) ∨
+    ∃ k j, lookup k M.table = some j ∧ M.rots.getD q 0 = (j : Int) ∧
+      Attains ((enumJobs tgt tmpl tS mS o i rots pe).flatMap (jobTiles score)) p k (M.scores.getD q 0) ∧
+      thr < M.scores.getD q 0 :=
+  ((scanSubsetsRun_represents score _ (enumJobs_dims tgt tmpl tS mS o i rots pe h1 h2 h3) hM).cell p q hq).2
+
+/-- a score function that reads one global per-rotation map `g` at the global position of each cell: the hypothesis
+`hscore` of `scan_subsets_eq_unsplit` is satisfiable for every `g` and every tiling -/
+def globalScore (g : R → List Nat → Int) (key : R → K) : ScoreFn R K := fun t _ r =>
+  (Arr.ofFn (t.map (fun s => s.2 - s.1)) (fun q => g r (List.zipWith (· + ·) (t.map Prod.fst) q)), key r)
+
+omit [DecidableEq K] in
+open Pm.C04 in
+theorem globalScore_reads_g (g : R → List Nat → Int) (key : R → K) (t m : List (Nat × Nat)) (r : R) (p q : List Nat)
+    (hq : localIdx (t.map Prod.fst) (t.map (fun s => s.2 - s.1)) p = some q) :
+    (globalScore g key t m r).1.getD q 0 = g r p := by
+  simp only [globalScore]
+  rw [Arr.getD_ofFn _ _ _ _ (localIdx_inShape hq), localIdx_add hq]
+
+/-- the axes of a job's padded tile in the vocabulary of `tiled_eq_unsplit_padded` (edge padding on) -/
+def jobAxes : List Nat → List (Nat × Nat) → List Nat → List AxSpec
+  | N :: ns, s :: ss, m :: ms => ⟨N, s.1, s.2, m - m % 2⟩ :: jobAxes ns ss ms
+  | _, _, _ => []
+
+/-- the tile shape the analyzer of a padded job is told (`targetshape`) is the extent of C14's tile extraction -/
+theorem jobAxes_ext : ∀ (tgt : List Nat) (t : List (Nat × Nat)) (tmpl : List Nat),
+    tileExt (jobAxes tgt t tmpl) = zipWith3 paddedExtent tgt t (targetPad tmpl true)
+  | [], _, _ => by simp [jobAxes, tileExt, zipWith3]
+  | _ :: _, [], _ => by simp [jobAxes, tileExt, zipWith3]
+  | _ :: _, _ :: _, [] => by simp [jobAxes, tileExt, zipWith3, targetPad]
+  | N :: ns, s :: ss, m :: ms => by
+    have ih := jobAxes_ext ns ss ms
+    simp only [tileExt, targetPad] at ih
+    simp only [jobAxes, tileExt, List.map_cons, targetPad, zipWith3, if_true, ih]
+    rfl
+
+/-- **The offset handed to the analyzer is the one `tiled_eq_unsplit_padded` asks for**: cell `q` of a padded job with
+target slice `t` and cell `start + q` of the unsplit padded run (slice = whole target) address the same global position
+(`SamePos`), so — with C14's tile content (`tile_content_hypothesis`) — both hold the same score. -/
+theorem job_cell_same_position : ∀ (tgt : List Nat) (t : List (Nat × Nat)) (tmpl q : List Nat),
+    t.length = tgt.length → tmpl.length = tgt.length → q.length = tgt.length →
+    SamePos tmpl (tileOff (jobAxes tgt t tmpl)) (q.map Int.ofNat)
+      (tileOff (jobAxes tgt (tgt.map (fun N => (0, N))) tmpl))
+      ((List.zipWith (· + ·) (t.map Prod.fst) q).map Int.ofNat)
+  | [], [], [], [], _, _, _ => by simp [jobAxes, tileOff, SamePos]
+  | N :: ns, s :: ss, m :: ms, x :: xs, h1, h2, h3 => by
+    have ih := job_cell_same_position ns ss ms xs (by simpa using h1) (by simpa using h2) (by simpa using h3)
+    simp only [tileOff] at ih
+    simp only [jobAxes, tileOff, List.map_cons, List.zipWith_cons_cons, SamePos, AxSpec.left]
+    refine ⟨?_, ih⟩
+    simp only [Int.ofNat_eq_natCast, Nat.cast_add]
+    ring
+  | [], _ :: _, _, _, h, _, _ => by simp at h
+  | [], [], _ :: _, _, _, h, _ => by simp at h
+  | [], [], [], _ :: _, _, _, h => by simp at h
+  | _ :: _, [], _, _, h, _, _ => by simp at h
+  | _ :: _, _ :: _, [], _, _, h, _ => by simp at h
+  | _ :: _, _ :: _, _ :: _, [], _, _, h => by simp at h
+
+open Pm.C04 in
+/-- **(c) Template splits, as coded**: every (target tile, template part) pair is scored as a problem of its own with the
+*target* tile's start as offset, and the parts are combined by `merge`, i.e. by the maximum — the value at a voxel is the
+largest, over all template parts and rotations, of the part's score there.  (No sum over the parts, no shift by the
+part's start: `template_offset` is computed in `subset_by_slice` and not used.) -/
+theorem template_splits_combine_by_max {thr : Int} (score : ScoreFn R K) (tgt tmpl tS mS : List Nat) (o i : Nat)
+    (rots : List R) (pe : Bool) (hi : 1 ≤ i)
+    (h1 : tgt.length = tS.length) (h2 : tmpl.length = mS.length) (h3 : tgt.length = tmpl.length)
+    {M : Store K} (hM : scanSubsetsRun thr score (enumJobs tgt tmpl tS mS o i rots pe) = some M) (p : List Nat) :
+    M.valOr thr p = specMax thr ((splitPairs tgt tmpl tS mS).flatMap
+      (fun tm => coreVals score p (coreOf tgt tmpl rots pe tm))) := by
+  rw [scanSubsetsRun_value score _ (enumJobs_dims tgt tmpl tS mS o i rots pe h1 h2 h3) hM p,
+      enumJobs_core _ _ _ _ _ _ _ _ hi, List.flatMap_map]
+
+/-- 1-D cross-correlation of the definition: `Σ_k f[j + k] g[k]` -/
+def ccAt (f g : List Int) (j : Nat) : Int :=
+  ((List.range g.length).map (fun k => f.getD (j + k) 0 * g.getD k 0)).foldl (· + ·) 0
+
+/-- the CC score of the template part `g[m]` on the target tile `f[t]` (1-D, "same" frame anchored at the part's start) -/
+def partScore (f g : List Int) : ScoreFn Unit String := fun t m _ =>
+  (Arr.ofFn (t.map (fun s => s.2 - s.1)) (fun idx =>
+     ccAt f ((g.drop (m.headD (0, 0)).1).take ((m.headD (0, 0)).2 - (m.headD (0, 0)).1)) ((t.headD (0, 0)).1 + idx.headD 0)), "r")
+
+/-- **(c) witness: the clause "the result does not depend on splitting" fails for template splits.**  Target `[1,2,3]`,
+template `[1,1]` cut into two parts: each part scores `[1,2,3]`, `merge` keeps the maximum `1` at voxel 0, while the
+unsplit cross-correlation there is `1·1 + 2·1 = 3` (the sum of the parts, the second one shifted by its start). -/
+theorem template_split_max_not_sum_current_defect :
+    (scanSubsetsRun 0 (partScore [1, 2, 3] [1, 1]) (enumJobs [3] [2] [0] [2] 1 1 [()] false)).map (fun M => M.valOr 0 [0])
+      = some 1 ∧ ccAt [1, 2, 3] [1, 1] 0 = 3 := by decide
+
+/-- **(c) witness: with edge padding the box a template-part job reports is not its target slice.**  Target 9×7,
+template 4×2 cut in two along axis 0, two target tiles, padding on: the margin is taken from the *whole* template
+(4, 2), the "valid" crop from the *part* (2, 2): the cropped array is 7×7 although the slice is 5×7, and it is placed at
+the slice start — and the two parts of a tile get the same offset. -/
+theorem template_split_box_current_defect :
+    (enumJobs [9, 7] [4, 2] [2, 0] [2, 0] 1 1 [0] true).map
+        (fun J => (J.templateSlice, J.offset, J.outShape, J.targetSlice.map (fun s => s.2 - s.1)))
+      = [([(0, 2), (0, 2)], [0, 0], [7, 7], [5, 7]), ([(2, 4), (0, 2)], [0, 0], [7, 7], [5, 7]),
+         ([(0, 2), (0, 2)], [4, 0], [7, 7], [5, 7]), ([(2, 4), (0, 2)], [4, 0], [7, 7], [5, 7])] := by decide
+
+end more
+
+/-! ### (a) composed with C14's tile content and C01's valid frame: a padded job reports the unsplit value at the global position -/
+
+theorem vRefl_jobAxes : ∀ (tgt : List Nat) (t t' : List (Nat × Nat)) (tmpl : List Nat) (pos : List Int),
+    t.length = tgt.length → t'.length = tgt.length →
+    vRefl (jobAxes tgt t tmpl) pos = vRefl (jobAxes tgt t' tmpl) pos
+  | [], _, _, _, _, _, _ => by simp [jobAxes, vRefl]
+  | _ :: _, [], _, _, _, h, _ => by simp at h
+  | _ :: _, _ :: _, [], _, _, _, h => by simp at h
+  | _ :: _, _ :: _, _ :: _, [], _, _, _ => by simp [jobAxes, vRefl]
+  | N :: ns, s :: ss, s' :: ss', m :: ms, [], _, _ => by simp [jobAxes, vRefl]
+  | N :: ns, s :: ss, s' :: ss', m :: ms, x :: xs, h, h' => by
+    simp only [jobAxes, vRefl]
+    rw [vRefl_jobAxes ns ss ss' ms xs (by simpa using h) (by simpa using h')]
+
+/-- **A job with edge padding reports, at its cropped cell `q`, exactly what the unsplit padded run reports at the global
+position `start + q`** — for every correlation map (hence, by C01, every score), any rank, any tiling, `pad_fourier` on
+or off.  `T` is the padded tile of the job with target slice `t` (it holds `vol[src(x)]`, C14's `subset_array`
+bookkeeping, as the C14 correspondence observes on real tiles), `U` the padded whole target (slice = everything); margins
+within one reflection (`AxSpec.Ok`), cells inside the `valid` crop.  This discharges the hypothesis `hscore` of
+`scan_subsets_eq_unsplit` for the padded search. -/
+theorem padded_job_score_eq_unsplit {α} [CommSemiring α] (pad : Bool) (tgt : List Nat) (t : List (Nat × Nat))
+    (tmpl q NsT NsU : List Nat) (vol T U g : List Int → α)
+    (h1 : t.length = tgt.length) (h2 : tmpl.length = tgt.length) (h3 : q.length = tgt.length)
+    (hokT : ∀ a ∈ jobAxes tgt t tmpl, a.Ok) (hokU : ∀ a ∈ jobAxes tgt (tgt.map (fun N => (0, N))) tmpl, a.Ok)
+    (hT : Pm.C01.Supp (tileExt (jobAxes tgt t tmpl)) T)
+    (hU : Pm.C01.Supp (tileExt (jobAxes tgt (tgt.map (fun N => (0, N))) tmpl)) U) (hg : Pm.C01.Supp tmpl g)
+    (cT : ∀ x, InBoxI (tileExt (jobAxes tgt t tmpl)) x → T x = vol (tileSrc (jobAxes tgt t tmpl) x))
+    (cU : ∀ x, InBoxI (tileExt (jobAxes tgt (tgt.map (fun N => (0, N))) tmpl)) x →
+        U x = vol (tileSrc (jobAxes tgt (tgt.map (fun N => (0, N))) tmpl) x))
+    (hj : Pm.C01.ValidOk pad (tileExt (jobAxes tgt t tmpl)) tmpl NsT (q.map Int.ofNat))
+    (hJ : Pm.C01.ValidOk pad (tileExt (jobAxes tgt (tgt.map (fun N => (0, N))) tmpl)) tmpl NsU
+        ((List.zipWith (· + ·) (t.map Prod.fst) q).map Int.ofNat)) :
+    Pm.C01.implCorr NsT tmpl (Pm.C01.shiftsOf pad tmpl) (Pm.C01.validCrops pad (tileExt (jobAxes tgt t tmpl)) tmpl) T g
+        (q.map Int.ofNat)
+      = Pm.C01.implCorr NsU tmpl (Pm.C01.shiftsOf pad tmpl)
+          (Pm.C01.validCrops pad (tileExt (jobAxes tgt (tgt.map (fun N => (0, N))) tmpl)) tmpl) U g
+          ((List.zipWith (· + ·) (t.map Prod.fst) q).map Int.ofNat) := by
+  apply tiled_eq_unsplit_padded pad _ _ tmpl NsT NsU T U (fun pos => vol (vRefl (jobAxes tgt t tmpl) pos)) g
+    (tileOff (jobAxes tgt t tmpl)) (tileOff (jobAxes tgt (tgt.map (fun N => (0, N))) tmpl)) _ _ hT hU hg
+    (tile_content_hypothesis vol T _ hokT cT) ?_ hj hJ (job_cell_same_position tgt t tmpl q h1 h2 h3)
+  intro x hx
+  have := tile_content_hypothesis vol U _ hokU cU x hx
+  simp only at this
+  rw [this, vRefl_jobAxes tgt _ t tmpl _ (by simp) h1]
+
+section sideconditions
+open Pm.C01
+
+/-- per axis: the slice lies in the target, the template extent is positive, `q` is a cell of the cropped array, the FFT
+shape `F` holds the convolution of the padded tile -/
+def CellOk (pad : Bool) : List Nat → List (Nat × Nat) → List Nat → List Nat → List Nat → Prop
+  | [], [], [], [], [] => True
+  | N :: ns, s :: ss, m :: ms, q :: qs, F :: Fs =>
+      (s.1 < s.2 ∧ s.2 ≤ N ∧ 0 < m ∧ q < s.2 - s.1 ∧ convLen (s.2 - s.1 + (m - m % 2)) m pad ≤ F) ∧ CellOk pad ns ss ms qs Fs
+  | _, _, _, _, _ => False
+
+/-- **Every cell of a padded job's cropped array lies in C01's `valid` frame** (the side condition `ValidOk` of
+`padded_job_score_eq_unsplit`): the padded tile has extent `L + (m - m % 2) ≥ m`, its `valid` extent is `L`. -/
+theorem job_validOk (pad : Bool) : ∀ (tgt : List Nat) (t : List (Nat × Nat)) (tmpl q Fs : List Nat),
+    CellOk pad tgt t tmpl q Fs → ValidOk pad (tileExt (jobAxes tgt t tmpl)) tmpl Fs (q.map Int.ofNat)
+  | [], [], [], [], [], _ => by simp [jobAxes, tileExt, ValidOk]
+  | N :: ns, s :: ss, m :: ms, x :: xs, F :: Fs, h => by
+    obtain ⟨⟨h1, h2, h3, h4, h5⟩, hr⟩ := h
+    have ih := job_validOk pad ns ss ms xs Fs hr
+    simp only [tileExt] at ih
+    simp only [jobAxes, tileExt, List.map_cons, ValidOk]
+    refine ⟨?_, ih⟩
+    have hext : (AxSpec.ta ⟨N, s.1, s.2, m - m % 2⟩).extent = s.2 - s.1 + (m - m % 2) := by
+      simp only [AxSpec.ta, Pm.C14.tileAxis, Pm.C14.TileAxis.extent]
+      omega
+    rw [hext]
+    refine ⟨h3, by omega, h5, by simp, ?_⟩
+    simp only [validExt, Int.ofNat_eq_natCast]
+    omega
+  | [], _ :: _, _, _, _, h => by cases h
+  | [], [], _ :: _, _, _, h => by cases h
+  | [], [], [], _ :: _, _, h => by cases h
+  | [], [], [], [], _ :: _, h => by cases h
+  | _ :: _, [], _, _, _, h => by cases h
+  | _ :: _, _ :: _, [], _, _, h => by cases h
+  | _ :: _, _ :: _, _ :: _, [], _, h => by cases h
+  | _ :: _, _ :: _, _ :: _, _ :: _, [], h => by cases h
+
+/-- **The margins of the jobs stay within one reflection** (`AxSpec.Ok`, the side condition of
+`padded_job_score_eq_unsplit`) as soon as every tile is longer than half the template on every axis
+(`m / 2 < stop - start`): tiles inside the target, e.g. those of `split_shape` (`splitShape_in_bounds`). -/
+theorem jobAxes_ok : ∀ (tgt : List Nat) (t : List (Nat × Nat)) (tmpl : List Nat),
+    List.Forall₂ (fun (r : Nat × Nat) (N : Nat) => r.1 < r.2 ∧ r.2 ≤ N) t tgt →
+    List.Forall₂ (fun (r : Nat × Nat) (m : Nat) => m / 2 < r.2 - r.1) t tmpl →
+    ∀ a ∈ jobAxes tgt t tmpl, a.Ok
+  | [], _, _, _, _, a, ha => by simp [jobAxes] at ha
+  | _ :: _, [], _, _, _, a, ha => by simp [jobAxes] at ha
+  | _ :: _, _ :: _, [], _, _, a, ha => by simp [jobAxes] at ha
+  | N :: ns, s :: ss, m :: ms, .cons h1 hr1, .cons h2 hr2, a, ha => by
+    simp only [jobAxes, List.mem_cons] at ha
+    rcases ha with rfl | ha
+    · simp only [AxSpec.Ok, AxSpec.left, AxSpec.ta, Pm.C14.tileAxis]
+      omega
+    · exact jobAxes_ok ns ss ms hr1 hr2 a ha
+
+
+theorem CellOk.facts (pad : Bool) : ∀ (tgt : List Nat) (t : List (Nat × Nat)) (tmpl q Fs : List Nat),
+    CellOk pad tgt t tmpl q Fs → t.length = tgt.length ∧ tmpl.length = tgt.length ∧ q.length = tgt.length ∧
+      List.Forall₂ (fun (r : Nat × Nat) (N : Nat) => r.1 < r.2 ∧ r.2 ≤ N) t tgt
+  | [], [], [], [], [], _ => ⟨rfl, rfl, rfl, .nil⟩
+  | N :: ns, s :: ss, m :: ms, x :: xs, F :: Fs, h => by
+    obtain ⟨⟨h1, h2, _, _, _⟩, hr⟩ := h
+    obtain ⟨a, b, c, d⟩ := CellOk.facts pad ns ss ms xs Fs hr
+    exact ⟨by simp [a], by simp [b], by simp [c], .cons ⟨h1, h2⟩ d⟩
+  | [], _ :: _, _, _, _, h => by cases h
+  | [], [], _ :: _, _, _, h => by cases h
+  | [], [], [], _ :: _, _, h => by cases h
+  | [], [], [], [], _ :: _, h => by cases h
+  | _ :: _, [], _, _, _, h => by cases h
+  | _ :: _, _ :: _, [], _, _, h => by cases h
+  | _ :: _, _ :: _, _ :: _, [], _, h => by cases h
+  | _ :: _, _ :: _, _ :: _, _ :: _, [], h => by cases h
+
+theorem half_whole : ∀ (tgt : List Nat) (t : List (Nat × Nat)) (tmpl : List Nat),
+    List.Forall₂ (fun (r : Nat × Nat) (N : Nat) => r.1 < r.2 ∧ r.2 ≤ N) t tgt →
+    List.Forall₂ (fun (r : Nat × Nat) (m : Nat) => m / 2 < r.2 - r.1) t tmpl →
+    List.Forall₂ (fun (r : Nat × Nat) (N : Nat) => r.1 < r.2 ∧ r.2 ≤ N) (tgt.map (fun N => (0, N))) tgt ∧
+    List.Forall₂ (fun (r : Nat × Nat) (m : Nat) => m / 2 < r.2 - r.1) (tgt.map (fun N => (0, N))) tmpl
+  | [], [], [], .nil, .nil => ⟨.nil, .nil⟩
+  | N :: ns, s :: ss, m :: ms, .cons h1 hr1, .cons h2 hr2 => by
+    obtain ⟨a, b⟩ := half_whole ns ss ms hr1 hr2
+    exact ⟨.cons ⟨by simp only; omega, by simp⟩ a, .cons (by simp only; omega) b⟩
+
+/-- **`padded_job_score_eq_unsplit` with its side conditions discharged from shapes**: for a job whose tiles are longer
+than half the template on every axis (`m / 2 < L`: one reflection suffices), every cell `q` of its cropped array
+(`CellOk`: slice inside the target, `q` inside the slice extent, FFT shapes large enough for the convolution) holds the
+value the unsplit padded run holds at the global position `start + q` — given only C14's tile content for `T` and `U`. -/
+theorem padded_job_cell_eq_unsplit_cell {α} [CommSemiring α] (pad : Bool) (tgt : List Nat) (t : List (Nat × Nat))
+    (tmpl q FsT FsU : List Nat) (vol T U g : List Int → α)
+    (hc : CellOk pad tgt t tmpl q FsT)
+    (hC : CellOk pad tgt (tgt.map (fun N => (0, N))) tmpl (List.zipWith (· + ·) (t.map Prod.fst) q) FsU)
+    (hhalf : List.Forall₂ (fun (r : Nat × Nat) (m : Nat) => m / 2 < r.2 - r.1) t tmpl)
+    (hT : Supp (tileExt (jobAxes tgt t tmpl)) T)
+    (hU : Supp (tileExt (jobAxes tgt (tgt.map (fun N => (0, N))) tmpl)) U) (hg : Supp tmpl g)
+    (cT : ∀ x, InBoxI (tileExt (jobAxes tgt t tmpl)) x → T x = vol (tileSrc (jobAxes tgt t tmpl) x))
+    (cU : ∀ x, InBoxI (tileExt (jobAxes tgt (tgt.map (fun N => (0, N))) tmpl)) x →
+        U x = vol (tileSrc (jobAxes tgt (tgt.map (fun N => (0, N))) tmpl) x)) :
+    implCorr FsT tmpl (shiftsOf pad tmpl) (validCrops pad (tileExt (jobAxes tgt t tmpl)) tmpl) T g (q.map Int.ofNat)
+      = implCorr FsU tmpl (shiftsOf pad tmpl)
+          (validCrops pad (tileExt (jobAxes tgt (tgt.map (fun N => (0, N))) tmpl)) tmpl) U g
+          ((List.zipWith (· + ·) (t.map Prod.fst) q).map Int.ofNat) := by
+  obtain ⟨l1, l2, l3, hb⟩ := CellOk.facts pad tgt t tmpl q FsT hc
+  obtain ⟨hbU, hhU⟩ := half_whole tgt t tmpl hb hhalf
+  exact padded_job_score_eq_unsplit pad tgt t tmpl q FsT FsU vol T U g l1 l2 l3
+    (jobAxes_ok tgt t tmpl hb hhalf) (jobAxes_ok tgt _ tmpl hbU hhU) hT hU hg cT cU
+    (job_validOk pad tgt t tmpl q FsT hc) (job_validOk pad tgt _ tmpl _ FsU hC)
+
+example : CellOk true [9, 7] [(4, 9), (3, 6)] [3, 2] [1, 2] [9, 6] ∧
+    CellOk true [9, 7] ([9, 7].map (fun N => (0, N))) [3, 2] (List.zipWith (· + ·) ([(4, 9), (3, 6)].map Prod.fst) [1, 2]) [13, 10] := by
+  simp [CellOk, convLen]
+
+end sideconditions
+
+/-! ### nothing is reported outside the target; the merged result has a cell for every voxel of the target -/
+
+section box
+variable {R K : Type} [DecidableEq K]
+
+theorem inShape_of_in_slice : ∀ (t : List (Nat × Nat)) (tgt p : List Nat),
+    List.Forall₂ (fun (r : Nat × Nat) (N : Nat) => r.1 < r.2 ∧ r.2 ≤ N) t tgt →
+    List.Forall₂ (fun (r : Nat × Nat) (i : Nat) => r.1 ≤ i ∧ i < r.2) t p → inShape tgt p = true
+  | [], [], [], _, _ => rfl
+  | _ :: t, N :: tgt, i :: p, .cons h1 hr1, .cons h2 hr2 => by
+    rw [inShape_cons]
+    exact ⟨by omega, inShape_of_in_slice t tgt p hr1 hr2⟩
+
+open Pm.C04 in
+/-- **No job reports anything outside the target**: at an absolute position that is not a voxel of the target the merged
+result holds the threshold (or has no cell at all) — no tile is placed with an offset that pushes scores beyond the
+target's ends.  (Whole template; with template parts and padding the boxes are larger, see
+`template_split_box_current_defect`.) -/
+theorem scan_subsets_nothing_outside_target {thr : Int} (score : ScoreFn R K) (tgt tmpl tS mS : List Nat) (o i : Nat)
+    (rots : List R) (pe : Bool) (hi : 1 ≤ i)
+    (h1 : tgt.length = tS.length) (h2 : tmpl.length = mS.length) (h3 : tgt.length = tmpl.length)
+    (hpos : ∀ n ∈ tgt, 0 < n) (hm : splitShape tmpl mS = [tmpl.map (fun m => (0, m))])
+    {M : Store K} (hM : scanSubsetsRun thr score (enumJobs tgt tmpl tS mS o i rots pe) = some M)
+    (p : List Nat) (hp : inShape tgt p = false) :
+    M.valOr thr p = thr := by
+  rw [template_splits_combine_by_max score tgt tmpl tS mS o i rots pe hi h1 h2 h3 hM p]
+  have : (splitPairs tgt tmpl tS mS).flatMap (fun tm => coreVals score p (coreOf tgt tmpl rots pe tm)) = [] := by
+    rw [List.flatMap_eq_nil_iff]
+    intro tm htm
+    obtain ⟨ht, hmm⟩ := (mem_splitPairs _ _ _ _ tm).mp htm
+    obtain ⟨t, m⟩ := tm
+    rw [hm] at hmm
+    simp only [List.mem_singleton] at hmm ht
+    subst hmm
+    obtain ⟨hoff, hshape⟩ := mkJob_box tgt tmpl tS 1 1 rots pe h1 h3 hpos t ht 0
+    simp only [coreVals, coreOf, Job.core, tileVals]
+    rw [hoff, hshape]
+    cases hq : localIdx (t.map Prod.fst) (t.map (fun s => s.2 - s.1)) p with
+    | none => rfl
+    | some q =>
+      exfalso
+      have hb := splitShape_in_bounds tgt tS h1 hpos t ht
+      have hin := in_slice_of_localIdx t p q (by
+        intro s hs
+        obtain ⟨N, _, h⟩ := forall₂_mem_left hb s hs
+        omega) hq
+      rw [inShape_of_in_slice t tgt p hb hin] at hp
+      cases hp
+  rw [this]
+  rfl
+
+open Pm.C04 in
+/-- **The merged result has a cell for every voxel of the target** (at least one rotation): the value of
+`scan_subsets_eq_unsplit` is read from the array, not a default. -/
+theorem scan_subsets_covers_target {thr : Int} (score : ScoreFn R K) (tgt tmpl tS mS : List Nat) (o i : Nat)
+    (rots : List R) (pe : Bool) (hi : 1 ≤ i) (hne : rots ≠ [])
+    (h1 : tgt.length = tS.length) (h2 : tmpl.length = mS.length) (h3 : tgt.length = tmpl.length)
+    (hpos : ∀ n ∈ tgt, 0 < n) (hm : splitShape tmpl mS = [tmpl.map (fun m => (0, m))])
+    {M : Store K} (hM : scanSubsetsRun thr score (enumJobs tgt tmpl tS mS o i rots pe) = some M)
+    (p : List Nat) (hp : inShape tgt p = true) :
+    ∃ q, localIdx M.offset M.scores.shape p = some q := by
+  cases hl : localIdx M.offset M.scores.shape p with
+  | some q => exact ⟨q, rfl⟩
+  | none =>
+    exfalso
+    have R := scanSubsetsRun_represents score _ (enumJobs_dims tgt tmpl tS mS o i rots pe h1 h2 h3) hM
+    have hnil := R.outside p hl
+    obtain ⟨r, hr⟩ := List.exists_mem_of_ne_nil rots hne
+    obtain ⟨J, hJ, ⟨c, hc, hrc⟩, q, hq, _⟩ :=
+      every_voxel_rotation_evaluated tgt tmpl tS mS o i rots pe h1 h3 hpos hi hm p hp r hr
+    have hmem : (score J.targetSlice J.templateSlice r).1.getD q 0 ∈
+        allVals ((enumJobs tgt tmpl tS mS o i rots pe).flatMap (jobTiles score)) p := by
+      simp only [allVals, List.mem_flatMap]
+      refine ⟨⟨J.offset, J.outShape, c.map (score J.targetSlice J.templateSlice)⟩,
+        ⟨J, hJ, List.mem_map.mpr ⟨c, hc, rfl⟩⟩, ?_⟩
+      simp only [tileVals, hq, valsAt, List.map_map, List.mem_map]
+      exact ⟨r, hrc, rfl⟩
+    rw [hnil] at hmem
+    cases hmem
+
+end box
+
+/-! ### the headline: splits, schedule, job count and rotation order together -/
+
+section headline
+variable {R K : Type} [DecidableEq K]
+
+open Pm.C04 in
+/-- **Independent of the rotation order, of repeated rotations and of the schedule at once**: two runs on the same
+tiling whose rotation lists have the same members (a permutation, a different chunking, duplicates) under any two
+schedules hold the same value at every absolute voxel (template splits allowed, as coded). -/
+theorem scan_subsets_rotation_order_free {thr : Int} (score : ScoreFn R K) (tgt tmpl tS mS : List Nat) (o i o' i' : Nat)
+    (rots rots' : List R) (pe : Bool) (hi : 1 ≤ i) (hi' : 1 ≤ i') (hmem : ∀ r, r ∈ rots ↔ r ∈ rots')
+    (h1 : tgt.length = tS.length) (h2 : tmpl.length = mS.length) (h3 : tgt.length = tmpl.length)
+    {M M' : Store K}
+    (hM : scanSubsetsRun thr score (enumJobs tgt tmpl tS mS o i rots pe) = some M)
+    (hM' : scanSubsetsRun thr score (enumJobs tgt tmpl tS mS o' i' rots' pe) = some M') (p : List Nat) :
+    M.valOr thr p = M'.valOr thr p := by
+  rw [template_splits_combine_by_max score tgt tmpl tS mS o i rots pe hi h1 h2 h3 hM p,
+      template_splits_combine_by_max score tgt tmpl tS mS o' i' rots' pe hi' h1 h2 h3 hM' p]
+  apply specMax_congr_mem
+  intro x
+  have key : ∀ (ra rb : List R), (∀ r, r ∈ ra → r ∈ rb) → ∀ tm,
+      x ∈ coreVals score p (coreOf tgt tmpl ra pe tm) → x ∈ coreVals score p (coreOf tgt tmpl rb pe tm) := by
+    intro ra rb hsub tm hx
+    simp only [coreVals, coreOf, Job.core, mkJob, tileVals, splitRotations_concat _ 1 (le_refl 1)] at hx ⊢
+    split at hx
+    · simp only [valsAt, List.map_map, List.mem_map] at hx ⊢
+      obtain ⟨r, hr, rfl⟩ := hx
+      exact ⟨r, hsub r hr, rfl⟩
+    · cases hx
+  constructor
+  · intro hx
+    obtain ⟨tm, htm, hxt⟩ := List.mem_flatMap.mp hx
+    exact List.mem_flatMap.mpr ⟨tm, htm, key rots rots' (fun r => (hmem r).mp) tm hxt⟩
+  · intro hx
+    obtain ⟨tm, htm, hxt⟩ := List.mem_flatMap.mp hx
+    exact List.mem_flatMap.mpr ⟨tm, htm, key rots' rots (fun r => (hmem r).mpr) tm hxt⟩
+
+open Pm.C04 in
+/-- **C02, the aggregated map** (exact arithmetic, whole template): two searches over the same target and template with
+*different* split vectors `tS`, `tS'`, *different* schedules `(o, i)`, `(o', i')` (any job counts, also more inner jobs
+than rotations) and rotation lists that are permutations of each other hold the same value at every voxel of the target
+— provided each job's score array reads one global per-rotation map at the global position of its cells (with edge
+padding: `padded_job_score_eq_unsplit`; without: only away from tile borders, the documented limitation). -/
+theorem match_result_independent_of_splits_schedule_order {thr : Int} (score : ScoreFn R K) (g : R → List Nat → Int)
+    (tgt tmpl tS tS' mS : List Nat) (o i o' i' : Nat) (rots rots' : List R) (pe : Bool)
+    (hi : 1 ≤ i) (hi' : 1 ≤ i') (hperm : rots.Perm rots')
+    (h1 : tgt.length = tS.length) (h1' : tgt.length = tS'.length) (h2 : tmpl.length = mS.length)
+    (h3 : tgt.length = tmpl.length) (hpos : ∀ n ∈ tgt, 0 < n)
+    (hm : splitShape tmpl mS = [tmpl.map (fun m => (0, m))])
+    (hscore : ∀ t, t ∈ splitShape tgt tS ∨ t ∈ splitShape tgt tS' → ∀ r ∈ rots, ∀ p q,
+        localIdx (t.map Prod.fst) (t.map (fun s => s.2 - s.1)) p = some q →
+        (score t (tmpl.map (fun m => (0, m))) r).1.getD q 0 = g r p)
+    {M M' : Store K}
+    (hM : scanSubsetsRun thr score (enumJobs tgt tmpl tS mS o i rots pe) = some M)
+    (hM' : scanSubsetsRun thr score (enumJobs tgt tmpl tS' mS o' i' rots' pe) = some M')
+    (p : List Nat) (hp : inShape tgt p = true) :
+    M.valOr thr p = M'.valOr thr p := by
+  rw [scan_subsets_eq_unsplit score g tgt tmpl tS mS o i rots pe hi h1 h2 h3 hpos hm
+        (fun t ht r hr => hscore t (Or.inl ht) r hr) hM p hp,
+      scan_subsets_eq_unsplit score g tgt tmpl tS' mS o' i' rots' pe hi' h1' h2 h3 hpos hm
+        (fun t ht r hr => hscore t (Or.inr ht) r (hperm.mem_iff.mpr hr)) hM' p hp]
+  exact specMax_perm (hperm.map _)
+
+end headline
+
+/-! ### the crop mode; schedules computed on different machines -/
+
+section machine
+variable {R K : Type} [DecidableEq K]
+
+/-- the analyzer is told "valid" exactly when edge padding was requested and some template extent is at least 2
+(`_is_padded = sum(target_pad) > 0`, `target_pad = m - m % 2`) — otherwise "same" -/
+theorem job_valid_iff (tgt tmpl tS mS : List Nat) (o i : Nat) (rots : List R) (pe : Bool)
+    (J : Job R) (hJ : J ∈ enumJobs tgt tmpl tS mS o i rots pe) :
+    J.valid = true ↔ pe = true ∧ ∃ m ∈ tmpl, 2 ≤ m := by
+  obtain ⟨tm, _, k, rfl⟩ := mem_enumJobs _ _ _ _ _ _ _ _ _ hJ
+  simp only [mkJob, decide_eq_true_eq]
+  have hz := foldl_add_eq_zero (targetPad tmpl pe)
+  constructor
+  · intro hpos
+    have hne : ¬ ∀ x ∈ targetPad tmpl pe, x = 0 := fun h => by have := hz.mpr h; omega
+    cases pe with
+    | false => exact absurd (by intro x hx; obtain ⟨m, _, rfl⟩ := List.mem_map.mp hx; rfl) hne
+    | true =>
+      refine ⟨rfl, ?_⟩
+      by_contra hno
+      apply hne
+      intro x hx
+      obtain ⟨m, hm, rfl⟩ := List.mem_map.mp hx
+      have : ¬ 2 ≤ m := fun h => hno ⟨m, hm, h⟩
+      simp only [if_true]
+      omega
+  · rintro ⟨rfl, m, hm, h2⟩
+    by_contra hnp
+    have h0 : (targetPad tmpl true).foldl (· + ·) 0 = 0 := by omega
+    have := hz.mp h0 (m - m % 2) (List.mem_map.mpr ⟨m, hm, by simp⟩)
+    omega
+
+open Pm.C04 Pm.C14 in
+/-- **The result does not depend on the machine**: `compute_parallelization_schedule` (C14 `schedule`) run for two
+machines — different core counts, different memory limits, different memory estimators — returns split vectors and
+(outer, inner) job counts `c`, `c'`; the two searches they configure hold the same value at every voxel of the target
+(hypotheses as in `match_result_independent_of_splits_schedule_order`; a returned schedule always has `inner ≥ 1` because
+`outer · inner = max_cores`, C14 `schedule_sound`). -/
+theorem match_result_independent_of_machine {thr : Int} (score : ScoreFn R K) (g : R → List Nat → Int)
+    (tgt tmpl mS : List Nat) (rots rots' : List R) (pe : Bool)
+    (P P' : Problem) (fa fi fa' fi' : Nat) (c c' : Cand)
+    (hc : schedule P fa fi = some c) (hc' : schedule P' fa' fi' = some c')
+    (hP : 0 < P.maxCores) (hP' : 0 < P'.maxCores) (hperm : rots.Perm rots')
+    (h1 : tgt.length = c.splits.length) (h1' : tgt.length = c'.splits.length) (h2 : tmpl.length = mS.length)
+    (h3 : tgt.length = tmpl.length) (hpos : ∀ n ∈ tgt, 0 < n)
+    (hm : splitShape tmpl mS = [tmpl.map (fun m => (0, m))])
+    (hscore : ∀ t, t ∈ splitShape tgt c.splits ∨ t ∈ splitShape tgt c'.splits → ∀ r ∈ rots, ∀ p q,
+        localIdx (t.map Prod.fst) (t.map (fun s => s.2 - s.1)) p = some q →
+        (score t (tmpl.map (fun m => (0, m))) r).1.getD q 0 = g r p)
+    {M M' : Store K}
+    (hM : scanSubsetsRun thr score (enumJobs tgt tmpl c.splits mS c.outer c.inner rots pe) = some M)
+    (hM' : scanSubsetsRun thr score (enumJobs tgt tmpl c'.splits mS c'.outer c'.inner rots' pe) = some M')
+    (p : List Nat) (hp : inShape tgt p = true) :
+    M.valOr thr p = M'.valOr thr p := by
+  have hi : 1 ≤ c.inner := by
+    have := (schedule_sound P fa fi c hc).1
+    rcases Nat.eq_zero_or_pos c.inner with h | h
+    · rw [h] at this; omega
+    · exact h
+  have hi' : 1 ≤ c'.inner := by
+    have := (schedule_sound P' fa' fi' c' hc').1
+    rcases Nat.eq_zero_or_pos c'.inner with h | h
+    · rw [h] at this; omega
+    · exact h
+  exact match_result_independent_of_splits_schedule_order score g tgt tmpl c.splits c'.splits mS c.outer c.inner
+    c'.outer c'.inner rots rots' pe hi hi' hperm h1 h1' h2 h3 hpos hm hscore hM hM' p hp
+
+end machine
+
+/-! ### without edge padding; tiles listed twice -/
+
+section unpadded
+open Pm.C01
+
+theorem shiftL_specIdx : ∀ (ms : List Nat) (off t : List Int) (k : List Nat),
+    shiftL off (specIdx ms t k) = specIdx ms (shiftL off t) k
+  | [], off, t, k => by cases off <;> cases t <;> cases k <;> simp [shiftL, specIdx]
+  | m :: ms, [], t, k => by cases t <;> cases k <;> simp [shiftL, specIdx]
+  | m :: ms, o :: off, [], k => by cases k <;> simp [shiftL, specIdx]
+  | m :: ms, o :: off, x :: t, [] => by simp [shiftL, specIdx]
+  | m :: ms, o :: off, x :: t, k :: ks => by
+    simp only [shiftL, specIdx, shiftL_specIdx ms off t ks]
+    congr 1
+    ring
+
+/-- **Without edge padding: a job reports the unsplit value wherever the template window lies inside the job's tile.**
+The tile `T` of a job with target slice `t` shows the target `U` shifted by the slice start — the offset the job hands to
+its analyzer; a cell `c` of the job ("same" frame) whose window stays inside the tile holds what the unsplit run holds at
+`start + c`.  (Windows that cross an internal tile border are the documented limitation, a known finding.) -/
+theorem unpadded_job_score_eq_unsplit_interior {α} [CommSemiring α] (pad : Bool) (tgt : List Nat) (t : List (Nat × Nat))
+    (tmpl NsT NsU : List Nat) (T U g : List Int → α) (c : List Int)
+    (hT : Supp (t.map (fun s => s.2 - s.1)) T) (hU : Supp tgt U) (hg : Supp tmpl g)
+    (cT : ∀ x, InBoxI (t.map (fun s => s.2 - s.1)) x → T x = U (shiftL (t.map (fun s => (s.1 : Int))) x))
+    (hc : SameOk pad (t.map (fun s => s.2 - s.1)) tmpl NsT c)
+    (hG : SameOk pad tgt tmpl NsU (shiftL (t.map (fun s => (s.1 : Int))) c))
+    (hin : ∀ k, inShape tmpl k = true → InBoxI (t.map (fun s => s.2 - s.1)) (specIdx tmpl c k)) :
+    implCorr NsT tmpl (shiftsOf pad tmpl) (sameCrops pad (t.map (fun s => s.2 - s.1)) tmpl) T g c
+      = implCorr NsU tmpl (shiftsOf pad tmpl) (sameCrops pad tgt tmpl) U g (shiftL (t.map (fun s => (s.1 : Int))) c) := by
+  apply tiled_eq_unsplit_interior pad _ _ tmpl NsT NsU T U g (t.map (fun s => (s.1 : Int))) c _ hT hU hg hc hG
+  intro k hk
+  rw [cT _ (hin k hk), shiftL_specIdx]
+
+example : SameOk true [5, 3] [3, 2] [7, 4] [2, 1] ∧ SameOk true [9, 7] [3, 2] [11, 8] (shiftL [4, 3] [2, 1]) ∧
+    (∀ k, inShape [3, 2] k = true → InBoxI [5, 3] (specIdx [3, 2] [2, 1] k)) := by
+  refine ⟨by simp [SameOk, convLen], by simp [SameOk, convLen, shiftL], ?_⟩
+  intro k hk
+  match k, hk with
+  | [a, b], hk =>
+    simp only [inShape, Bool.and_true, Bool.and_eq_true, decide_eq_true_eq] at hk
+    simp only [specIdx, InBoxI, and_true]
+    omega
+  | [], hk => simp [inShape] at hk
+  | [_], hk => simp [inShape] at hk
+  | _ :: _ :: _ :: _, hk => simp [inShape] at hk
+
+/-- **No tile is reported with two different offsets**: two jobs with the same slices (which `split_shape` does produce
+when the shifted-back last tiles coincide) get the same offset, tile shape, cropped shape and rotation chunks — the tile
+is scored twice and both results land on the same cells, which the maximum does not notice. -/
+theorem same_slices_same_box {R : Type} (tgt tmpl tS mS : List Nat) (o i : Nat) (rots : List R) (pe : Bool)
+    (J J' : Job R) (hJ : J ∈ enumJobs tgt tmpl tS mS o i rots pe) (hJ' : J' ∈ enumJobs tgt tmpl tS mS o i rots pe)
+    (h : J.targetSlice = J'.targetSlice) (h' : J.templateSlice = J'.templateSlice) :
+    J.offset = J'.offset ∧ J.outShape = J'.outShape ∧ J.targetShape = J'.targetShape ∧ J.valid = J'.valid ∧
+    J.chunks = J'.chunks := by
+  obtain ⟨tm, _, k, rfl⟩ := mem_enumJobs _ _ _ _ _ _ _ _ _ hJ
+  obtain ⟨tm', _, k', rfl⟩ := mem_enumJobs _ _ _ _ _ _ _ _ _ hJ'
+  obtain ⟨a, b⟩ := tm
+  obtain ⟨a', b'⟩ := tm'
+  simp only [mkJob] at h h'
+  subst h h'
+  simp [mkJob]
+
+/-- … and such duplicates exist: 5 voxels in 4 parts gives the tile `[3, 5)` twice -/
+theorem duplicate_tiles_witness :
+    (enumJobs [5] [1] [4] [0] 1 1 [0] false).map (fun J => (J.targetSlice, J.offset))
+      = [([(0, 2)], [0]), ([(2, 4)], [2]), ([(3, 5)], [3]), ([(3, 5)], [3])] := by decide
+
+end unpadded
+
+/-! ### the hypotheses are satisfiable (non-trivial instances) -/
+
+/-- 9×7 target in 2×3 tiles, 3×2 template, 3 rotations on 4 inner jobs (more jobs than rotations), padding on -/
+example : ([9, 7] : List Nat).length = ([2, 3] : List Nat).length ∧ (∀ n ∈ ([9, 7] : List Nat), 0 < n) ∧
+    splitShape [3, 2] [0, 0] = [([3, 2] : List Nat).map (fun m => (0, m))] ∧ inShape [9, 7] [8, 3] = true := by decide
+example : (enumJobs [9, 7] [3, 2] [2, 3] [0, 0] 2 4 [10, 11, 12] true).map (fun J => (J.offset, J.outShape, J.chunks))
+    = [([0, 0], [5, 3], [[], [], [], [10, 11, 12]]), ([0, 3], [5, 3], [[], [], [], [10, 11, 12]]),
+       ([0, 4], [5, 3], [[], [], [], [10, 11, 12]]), ([4, 0], [5, 3], [[], [], [], [10, 11, 12]]),
+       ([4, 3], [5, 3], [[], [], [], [10, 11, 12]]), ([4, 4], [5, 3], [[], [], [], [10, 11, 12]])] := by decide
+example : (enumJobs [9, 7] [3, 2] [2, 3] [0, 0] 2 4 [10, 11, 12] true).map Job.core
+    = (enumJobs [9, 7] [3, 2] [2, 3] [0, 0] 1 1 [10, 11, 12] true).map Job.core := by decide
+/-- both runs of `scan_subsets_schedule_free` return a result: schedule (2, 3) — more inner jobs than rotations — and (1, 1) -/
+example : (scanSubsetsRun 0 (globalScore (fun (r : Nat) p => (r : Int) * 10 - (p.headD 0 : Int)) (fun r => r))
+      (enumJobs [5] [2] [2] [0] 2 3 [1, 2] true)).isSome = true ∧
+    (scanSubsetsRun 0 (globalScore (fun (r : Nat) p => (r : Int) * 10 - (p.headD 0 : Int)) (fun r => r))
+      (enumJobs [5] [2] [2] [0] 1 1 [1, 2] true)).isSome = true := by decide
+/-- … and the merged map is the maximum over the rotations of the global map, at every voxel of the target -/
+example : (scanSubsetsRun 0 (globalScore (fun (r : Nat) p => (r : Int) * 10 - (p.headD 0 : Int)) (fun r => r))
+      (enumJobs [5] [2] [2] [0] 2 3 [1, 2] true)).map (fun M => (List.range 5).map (fun x => M.valOr 0 [x]))
+    = some [20, 19, 18, 17, 16] := by decide
+example : SamePos [3, 2] (tileOff (jobAxes [9, 7] [(4, 9), (3, 6)] [3, 2])) [1, 2]
+    (tileOff (jobAxes [9, 7] [(0, 9), (0, 7)] [3, 2])) [5, 5] := by
+  simp [SamePos, tileOff, jobAxes, AxSpec.left]
+
+/-- the structural hypotheses of `padded_job_score_eq_unsplit` for the tile `[4,9)×[3,6)` of a 9×7 target, 3×2 template:
+margins within one reflection, cells `(1,2)` / `(5,5)` inside the two `valid` crops (the fields `T`, `U` are
+`vol ∘ tileSrc` on their boxes, zero outside) -/
+example : (∀ a ∈ jobAxes [9, 7] [(4, 9), (3, 6)] [3, 2], a.Ok) ∧ (∀ a ∈ jobAxes [9, 7] [(0, 9), (0, 7)] [3, 2], a.Ok) := by
+  simp [jobAxes, AxSpec.Ok, AxSpec.left, AxSpec.ta, Pm.C14.tileAxis]
+example : Pm.C01.ValidOk true (tileExt (jobAxes [9, 7] [(4, 9), (3, 6)] [3, 2])) [3, 2] [9, 6] [1, 2] ∧
+    Pm.C01.ValidOk true (tileExt (jobAxes [9, 7] [(0, 9), (0, 7)] [3, 2])) [3, 2] [13, 10] [5, 5] := by
+  simp [Pm.C01.ValidOk, tileExt, jobAxes, AxSpec.ta, Pm.C14.tileAxis, Pm.C14.TileAxis.extent, Pm.C01.convLen, Pm.C01.validExt]
+
+/-- `match_result_independent_of_splits_schedule_order`: 2 tiles / schedule (2, 3) / rotations [1, 2] against 3 tiles /
+schedule (1, 2) / rotations [2, 1]: both runs return a result and the maps agree on the target -/
+example : (scanSubsetsRun 0 (globalScore (fun (r : Nat) p => (r : Int) * 10 - (p.headD 0 : Int)) (fun r => r))
+      (enumJobs [5] [2] [2] [0] 2 3 [1, 2] true)).map (fun M => (List.range 5).map (fun x => M.valOr 0 [x]))
+    = (scanSubsetsRun 0 (globalScore (fun (r : Nat) p => (r : Int) * 10 - (p.headD 0 : Int)) (fun r => r))
+      (enumJobs [5] [2] [3] [0] 1 2 [2, 1] true)).map (fun M => (List.range 5).map (fun x => M.valOr 0 [x])) := by decide
+
+/-- the merge calls: one `scan` result per job for the outer `merge`, `inner` analyzers per job for the inner one -/
+theorem mergePlan_lengths {R : Type} (tgt tmpl tS mS : List Nat) (o i : Nat) (rots : List R) (pe : Bool) :
+    (mergePlan (enumJobs tgt tmpl tS mS o i rots pe)).map List.length
+      = List.replicate (splitPairs tgt tmpl tS mS).length i := by
+  rw [List.eq_replicate_iff]
+  refine ⟨by simp [mergePlan, enumJobs_length], ?_⟩
+  intro n hn
+  simp only [mergePlan, List.map_map, List.mem_map] at hn
+  obtain ⟨J, hJ, rfl⟩ := hn
+  obtain ⟨tm, _, k, rfl⟩ := mem_enumJobs _ _ _ _ _ _ _ _ _ hJ
+  simp [mkJob, splitRotations]
+
+example : (enumJobs [9, 7] [3, 2] [2, 3] [0, 0] 2 4 [10, 11, 12] true).length = 6 ∧
+    mergePlan (enumJobs [5] [2] [2] [0] 2 3 [1, 2] true) = [[(0, 0), (0, 1), (0, 2)], [(1, 0), (1, 1), (1, 2)]] := by decide
+/-- `scan_subsets_nothing_outside_target` / `scan_subsets_covers_target`: position 7 is outside the 5-voxel target and holds
+the threshold, every voxel of the target has a cell -/
+example : inShape [5] [7] = false ∧
+    (scanSubsetsRun 0 (globalScore (fun (r : Nat) p => (r : Int) * 10 - (p.headD 0 : Int)) (fun r => r))
+      (enumJobs [5] [2] [2] [0] 2 3 [1, 2] true)).map (fun M => (M.valOr 0 [7], (List.range 5).map (fun x =>
+        (Pm.C04.localIdx M.offset M.scores.shape [x]).isSome))) = some (0, [true, true, true, true, true]) := by decide
+/-- `scan_subsets_rotation_order_free`: rotation lists with the same members (reordered, one repeated), other schedule -/
+example : (∀ r : Nat, r ∈ [1, 2] ↔ r ∈ [2, 1, 1]) ∧
+    (scanSubsetsRun 0 (globalScore (fun (r : Nat) p => (r : Int) * 10 - (p.headD 0 : Int)) (fun r => r))
+      (enumJobs [5] [2] [2] [0] 2 3 [1, 2] true)).map (fun M => (List.range 5).map (fun x => M.valOr 0 [x]))
+    = (scanSubsetsRun 0 (globalScore (fun (r : Nat) p => (r : Int) * 10 - (p.headD 0 : Int)) (fun r => r))
+      (enumJobs [5] [2] [2] [0] 1 2 [2, 1, 1] true)).map (fun M => (List.range 5).map (fun x => M.valOr 0 [x])) := by
+  refine ⟨by intro r; simp; tauto, by decide⟩
+/-- `scan_subsets_rotation_attains`: the stored identifiers are not the marker and map to rotation 2 (the maximiser) -/
+example : (scanSubsetsRun 0 (globalScore (fun (r : Nat) p => (r : Int) * 10 - (p.headD 0 : Int)) (fun r => r))
+      (enumJobs [5] [2] [2] [0] 2 3 [1, 2] true)).map (fun M => (List.range 5).map (fun x =>
+        Pm.C04.keyOf M.table (M.rots.getD [x] 0))) = some [some 2, some 2, some 2, some 2, some 2] := by decide
+
+/-- `job_valid_iff`: padding requested, template 1×1: "same"; template 3×2: "valid" -/
+example : (enumJobs [4, 4] [1, 1] [2, 0] [0, 0] 1 1 [0] true).map Job.valid = [false, false] ∧
+    (enumJobs [4, 4] [3, 2] [2, 0] [0, 0] 1 1 [0] true).map Job.valid = [true, true] := by decide
+
+/-- `match_result_independent_of_machine`: a 5-voxel target on a 2-core machine with plenty of memory (no split, schedule
+(1, 2)) and on a 3-core machine with little memory (3 tiles, schedule (3, 1)); both configured searches return a result
+and agree on the target -/
+def exMachine (cores ram : Nat) : Pm.C14.Problem :=
+  { ndim := 1, widths := fun f => (Pm.C14.splitShape [5] f).map (fun t => t.map (fun s => s.2 - s.1)),
+    est := fun w inner => prodL w * 10 * inner, maxCores := cores, maxRam := ram, maxSplits := 8, onlyOuter := false,
+    splitAxes := [0], firstAxis := 0 }
+example : (Pm.C14.schedule (exMachine 2 1000) 0 0).map (fun c => (c.splits, c.outer, c.inner)) = some ([1], 1, 2) ∧
+    (Pm.C14.schedule (exMachine 3 70) 0 0).map (fun c => (c.splits, c.outer, c.inner)) = some ([3], 3, 1) := by
+  decide +kernel
+example : (scanSubsetsRun 0 (globalScore (fun (r : Nat) p => (r : Int) * 10 - (p.headD 0 : Int)) (fun r => r))
+      (enumJobs [5] [2] [1] [0] 1 2 [1, 2] true)).map (fun M => (List.range 5).map (fun x => M.valOr 0 [x]))
+    = (scanSubsetsRun 0 (globalScore (fun (r : Nat) p => (r : Int) * 10 - (p.headD 0 : Int)) (fun r => r))
+      (enumJobs [5] [2] [3] [0] 3 1 [2, 1] true)).map (fun M => (List.range 5).map (fun x => M.valOr 0 [x])) := by decide
 
 end Pm.C02
